@@ -106,6 +106,23 @@ def translate(repo):
            and ast.unparse(c2.comparators[0]) == "dist_cutoff" and type(c2.ops[0]) in CMP)
     if not (ok1 and ok2):
         reject(t, "unexpected while test")
+    # --- the loop hands the centre objects themselves to the iteration (serial and MPI): the triangle-inequality
+    #     shortcut measures centre-to-new-centre distances from them, and they grow with every accepted centre
+    U = ast.unparse
+    wb = [s for s in wh[0].body if not (isinstance(s, ast.Expr) and U(s).startswith("logger."))]
+    call = U(ast.parse("(new_center, distances, assignments, center_inds) = iteration(traj, distance_method, distances, "
+                       "assignments, ctr_inds, use_triangle_inequality=use_triangle_inequality, **kwargs)").body[0])
+    if len(wb) < 2 or U(wb[0]) != call \
+            or U(wb[1]) != "centers.append(new_center)":
+        reject(wh[0], "expected the iteration call with **kwargs followed by centers.append(new_center)")
+    pos = body.index(wh[0])
+    pre = [U(s) for s in body[:pos]]
+    sel = "if mpi_mode:\n    iteration = _kcenters_iteration_mpi\nelse:\n    iteration = _kcenters_iteration"
+    if sel not in pre or pre[pre.index(sel) + 1:pre.index(sel) + 2] != ["kwargs = {'centers': centers}"]:
+        reject(fn, "expected the iteration selection followed by kwargs = {'centers': centers}")
+    for s in body[pre.index(sel) + 2:pos + 1]:
+        if any(isinstance(t, ast.Name) and t.id in ("kwargs", "centers", "iteration") and isinstance(t.ctx, ast.Store) for t in ast.walk(s)):
+            reject(s, "kwargs / centers / iteration rebound between the selection and the loop")
     text = """(* GENERATED by translator/tr_kcguard.py from %s:kcenters -- do not edit *)
 From Coq Require Import List ZArith QArith Bool.
 From EV Require Import KcGuardBase.
